@@ -160,6 +160,7 @@ type alphabetConfig struct {
 	BadPushes   bool
 	UntaggedToo bool
 	Tags        []string // nil = all tags of the universe
+	FinishedOps bool     // also resume/write/cancel on committed or cancelled upload sessions
 	BadNames    []string // extra (hostile) repository names used for pushes, mounts and deletes
 }
 
